@@ -331,7 +331,7 @@ CHECKS["C06"] = {
           "generated table, lifted to all texts). The full-strength statement is refuted by one kernel-evaluated witness per listed finding. "
           "The model is run against the real plan_operation (real build_styles_list) + apply_plan on every generated one-line file; an "
           "independent reference renderer judges 12 styles x 11 delimiter contexts x 30 option sets x term/input-style combinations "
-          "exhaustively, the CLI rename path on a sample. Since the composed model (WP-LINE): the coercion decision and the compound pass are no longer parameters — same_style_real / same_style_composed / same_style_validated are stated for the environment built from the models of coercion.rs and compound_scanner.rs / compound_matcher.rs (envReal_coerceOk, envReal_compound_nil), on the validated delimiter alphabet NeutralText (ASCII neutral bytes + listed non-ASCII punctuation; the byte-level model and the code part for a non-ASCII LETTER next to the occurrence: model_is_byte_level_outside_the_validated_domain), and the busy-lines family (several occurrences, embedded identifiers, coercion contexts) is compared line by line.",
+          "exhaustively, the CLI rename path on a sample. Since the composed model (WP-LINE): the coercion decision and the compound pass are no longer parameters — same_style_real / same_style_composed / same_style_validated are stated for the environment built from the models of coercion.rs and compound_scanner.rs / compound_matcher.rs (envReal_coerceOk, envReal_compound_nil), on the validated delimiter alphabet NeutralText (ASCII neutral bytes + listed non-ASCII punctuation; the byte-level model and the code part for a non-ASCII LETTER next to the occurrence: model_is_byte_level_outside_the_validated_domain), and the busy-lines family (several occurrences, embedded identifiers, coercion contexts) is compared line by line. Since WP-RESOLVER the resolver's context heuristics are in the model too (12 language modules parsed from the source into decision trees, file-context level; cross-file level proved unreachable): heurReal_ok, ambiguous_keeps_case_real — clause 3 without any contract hypothesis; the one-line pipeline has no parameter left.",
   "design_ref": "DESIGN.md section 4, C06",
   "technique": "Lean 4 proof (table-driven profile argument over the regenerated Style::constraints table + matcher / map / boundary lemmas "
                "composed into the one-line theorem) + kernel-evaluated witnesses + differential correspondence (rewriteline, filtercompat, "
